@@ -234,6 +234,10 @@ def startCase (s : St) : St := Id.run do
   let prog := cs.toProg net.toNet
   let pins0 := c.pinW.map Val.undef
   let ext : PExt := { scripts := c.scripts.toList.map fun sc => sc.map (toInstr cs) }
+  -- a clock whose reported frequency is not positive (an implementation answer contradicting its configuration, reported by the ccfg
+  -- check) would keep the model's event loop at one instant: report and do not simulate the case
+  if (List.range c.clocks.size).any fun i => !(0 < cs.absFreq i) then
+    return (s.diff "a clock reports a frequency that is not positive; case not simulated")
   let sim := powerOn prog (scriptSem c.nstart) fuel pins0 ext
   let mut h := s.hist
   for sc in c.scripts do
